@@ -10,10 +10,10 @@ import (
 // Traversal families (DESIGN.md 2.3). Roots are resolved through the type checker; the
 // members are whatever the call graph reaches from them.
 var (
-	famRun = &rules.Family{Name: "run", Roots: []string{relInterp + ":(*programState).runStatement"}}
+	famRun = &rules.Family{Name: "run", Roots: []string{"role:Dispatcher"}}
 	// prefetch-only functions: reachable from the prefetch root but not from the statement runner
-	famPrefetch = &rules.Family{Name: "prefetch", Roots: []string{relInterp + ":(*programState).findBalancesQueriesInStatement"},
-		Exclude: []string{relInterp + ":(*programState).runStatement"},
+	famPrefetch = &rules.Family{Name: "prefetch", Roots: []string{"role:PrefetchStmt"},
+		Exclude: []string{"role:Dispatcher"},
 		Relevant: func(cf model.ChildField) bool {
 			// the prefetch only needs the places where a balance is read: sources, the account
 			// expressions of account-like sources, the sent value (asset) and the saved account
